@@ -405,6 +405,64 @@ def memo_rule(ctx, rule: str, module_suffixes: Sequence[str]) -> None:
         ctx.rep.holds(rule, "no-behaviour-changing-cache", f"{len(funcs)} functions in {list(module_suffixes)}: no cache decorator on a builder of mutable results, no memo table with an incomplete key (fixture detected)")
 
 
+# ------------------------------------------------------------------ one-shot iterators consumed twice
+_ONE_SHOT = ("zip", "map", "filter", "iter", "enumerate", "reversed")
+_CONSUMERS = ("list", "tuple", "set", "dict", "sorted", "sum", "max", "min", "any", "all", "next", "array", "fromiter", "join", "Counter", "frozenset")
+
+
+def one_shot_iterator_rule(ctx, rule: str, func_names: Sequence[str]) -> int:
+    """A local bound to `zip(..)` / `map(..)` / a generator expression can be walked once.  When it is consumed at one site
+    (a `for`, a comprehension, `sum(1 for _ in it)`, `list(it)` ..) and another consuming site can be reached afterwards, the
+    second one finds nothing - the elements are silently lost.  Returns the number of such locals examined."""
+    n_seen = 0
+    for name in func_names:
+        f = ctx.prog.func(name)
+        if f is None:
+            continue
+        fv = ctx.fv(f)
+        binds = {}
+        for nd in fv.cfg.nodes:
+            if nd.kind == "stmt" and isinstance(nd.ast, ast.Assign) and len(nd.ast.targets) == 1 and isinstance(nd.ast.targets[0], ast.Name):
+                v = nd.ast.value
+                if isinstance(v, ast.GeneratorExp) or (isinstance(v, ast.Call) and isinstance(v.func, ast.Name) and v.func.id in _ONE_SHOT):
+                    binds.setdefault(nd.ast.targets[0].id, []).append(nd)
+        for var, defs_ in binds.items():
+            # every definition of the name is a one-shot iterator (otherwise it may be a list on some path: not decided here)
+            all_defs = [nd for nd in fv.cfg.nodes if nd.kind in ("stmt", "for") and any(isinstance(x, ast.Name) and x.id == var and isinstance(x.ctx, ast.Store) for x in ast.walk(nd.ast.target if nd.kind == "for" else nd.ast))]
+            if len(all_defs) != len(defs_):
+                continue
+            n_seen += 1
+            sites = []
+            for nd in fv.cfg.nodes:
+                if nd.ast is None:
+                    continue
+                if nd.kind == "for" and is_name(nd.ast.iter, var):
+                    sites.append((nd, "for"))
+                    continue
+                tree = nd.ast if nd.kind == "stmt" else getattr(nd.ast, "test", None) if nd.kind in ("if", "while") else None
+                if tree is None:
+                    continue
+                for x in ast.walk(tree):
+                    if isinstance(x, ast.comprehension) and is_name(x.iter, var):
+                        sites.append((nd, "comprehension"))
+                    elif isinstance(x, ast.Call) and call_fname(x) in _CONSUMERS and any(is_name(a_, var) for a_ in x.args):
+                        sites.append((nd, call_fname(x)))
+                    elif isinstance(x, ast.Starred) and is_name(x.value, var):
+                        sites.append((nd, "*"))
+            hit = None
+            for a_, ka in sites:
+                for b_, kb in sites:
+                    if a_ is not b_ and not any(d.id == b_.id for d in defs_) and fv.cfg.reaches(a_.id, b_.id) \
+                            and not any(fv.cfg.reaches(a_.id, d.id) and fv.cfg.reaches(d.id, b_.id) for d in defs_):
+                        hit = hit or (a_, ka, b_, kb)
+            ctx.rep.touch(f)
+            ctx.rep.check(hit is None, rule, f"{f.qualname}/one-shot[{var}]", f"the iterator `{var}` is walked at one site only on every path",
+                          (f"`{var}` is a one-shot iterator ({ast.unparse(defs_[0].ast.value)[:40]}); it is consumed at line {hit[0].ast.lineno} ({hit[1]}) and walked again at line "
+                           f"{hit[2].ast.lineno} ({hit[3]}) on a path that does not rebuild it: the second walk finds it exhausted and the elements are lost") if hit else "",
+                          where=f.where(hit[2].ast) if hit else f.where())
+    return n_seen
+
+
 # ------------------------------------------------------------------ negative computed slice bounds
 def negative_slice_rule(ctx, rule: str, module_suffixes: Sequence[str]) -> int:
     """`x[a:-n]` is the empty slice for n == 0 (not "everything from a"): every slice bound of the form -<expression> needs
